@@ -33,16 +33,16 @@ CLAIMED['C18'] = dict(
    design_ref="5/C18")
 
 CLAIMED['C01'] = dict(
-   text="Proof (in stages, see props/C01.v): the full statement is kept as C01_full_statement and is REFUTED on the faithful model by the 100-ring witness (%100, known finding); proved so far: the three state functions regenerated from grammar_rules.py on every run never hand out more bond order than state, requested order and capacity allow (all integers), 99 rings are still legal; the graph invariant of derivation + ring pass is the next stage (proofs/DecoderInv.v). Decoder model tied by exact-output correspondence (bounded-exhaustive + sampled, many tables); every implementation output is judged by the extracted independent SMILES reader valid_smiles_under.",
-   technique="Coq proof over regenerated state functions + refutation witness + exact correspondence of the decoder model + extracted independent-reader oracle",
+   text="Kernel-checked for ALL strings and ALL accepted tables (props/C01.v, proofs/DecoderInv.v, proofs/DecoderSum.v): in the graph the decoder model builds (derivation + ring pass, compatible=False) every atom is non-aromatic, carries exactly the table's capacity for its (element, charge) minus its explicit H, and the orders of ALL bonds at it sum to at most that capacity; bonds have existing targets and order 1..3, ring bonds are stored symmetrically, no duplicate neighbours; the returned string is what the writer prints from that graph. The step from graph to printed string is not a theorem: the full statement (C01_full_statement) is REFUTED on the faithful model by the 100-ring witness (%100, known finding), 99 rings proved fine; every implementation output is judged by the extracted independent SMILES reader valid_smiles_under. State functions are regenerated from grammar_rules.py on every run; decoder model tied by exact-output correspondence (bounded-exhaustive + sampled, many tables).",
+   technique="Coq proof by invariant (graph valence invariant over the whole derivation and ring pass, all inputs) + refutation witness + exact correspondence of the decoder model + extracted independent-reader oracle",
    design_ref="5/C01")
 CLAIMED['C02'] = dict(
    text="Proof (partial, see props/C02.v): every rule's arithmetic (atom, branch, ring; regenerated from source) and every symbol table (regenerated) equals the documented grammar; index code = documented base-16 code. The refinement 'decoder = documented derivation' (C02_full_statement) is not yet a theorem: it is checked per input by the extracted documented-grammar evaluator (spec/DocGrammar.v) against the molecule the independent reader reads from the implementation's output - bounded-exhaustive over a rule-covering symbol set and sampled.",
    technique="Coq proof of rule/table equalities + extracted documented-grammar evaluator and independent reader as oracle (bounded-exhaustive + sampled) + exact correspondence",
    design_ref="5/C02")
 CLAIMED['C08'] = dict(
-   text="Proof (partial, see props/C08.v): assertions inside the state functions are unreachable at their call sites; a reached symbol outside the grammar raises DecoderError. Crash-freedom of the whole decoder model (every partial operation unreachable, fuel sufficient) is the next proof stage; until then outcome classes of implementation and model are compared on malformed / arbitrary / long / nested inputs with all flag combinations and the constraint table is checked untouched. Two interpreter limits are known findings.",
-   technique="Coq proof (partial) + outcome-class correspondence on malformed and arbitrary strings + known-finding classifiers",
+   text="Kernel-checked for ALL strings and ALL accepted tables (props/C08.v, proofs/DecoderInv.v): the decoder model (compatible=False, attribute on or off) returns a SMILES or raises DecoderError - no other exception class, no partial operation reached, fuel never exhausted - and a decode leaves the table in force untouched (history model). The statement excludes what the model does not exhibit and the implementation does: int() refusing more than 4300 digits and the interpreter's recursion limit (both known findings, classifiers in the check); compatible=True is covered by the correspondence only. Outcome classes of implementation and model are compared on malformed / arbitrary / long / nested inputs with all flag combinations.",
+   technique="Coq proof by invariant (crash-freedom of derivation, ring pass and writer on well-formed graphs) + outcome-class correspondence on malformed and arbitrary strings + known-finding classifiers",
    design_ref="5/C08")
 
 CLAIMED['C11'] = dict(
@@ -86,9 +86,9 @@ CLAIMED['C10'] = dict(
    technique="Coq proof of the index-suffix facts + extracted grammar-membership oracle + metamorphic oracles on the implementation + exact correspondence",
    design_ref="5/C10")
 CLAIMED['C17'] = dict(
-   category='translation_validation',
-   text="The model threads attribution exactly as the code does and is compared entry by entry with the implementation (both directions, multi-fragment, [nop]-padded, truncated indices); truthfulness (token found at reported output index, contributing symbol at reported input position, atom attributed to its creating symbol and enclosing branch symbols, SELFIES atom symbol attributed to its SMILES atom token) and non-interference (same string with and without attribute=True) are judged per input with independent tokenisations. Proved: the two repaired offsets (examples by vm_compute); the non-interference theorem is not proved yet.",
-   technique="exact correspondence of attribution lists with the model + independent-tokenisation oracle; Coq examples for the repaired offsets",
+   category='proof',
+   text="Kernel-checked for the decoder, ALL strings / tables / flags, no side condition (props/C17.v, proofs/AttrFacts.v): decoder(x, attribute=False) equals decoder(x, attribute=True) with the attribution erased - same outcome (value or exception class), same string, same output indices and tokens (simulation between the two runs through derivation, ring pass and writer). Not theorems, decided per input on every run: non-interference of the encoder and truthfulness of the entries (token found at the reported output index, contributing symbol at the reported input position, atom attributed to its creating symbol and enclosing branch symbols, SELFIES atom symbol attributed to its SMILES atom token), judged with independent tokenisations; attribution lists of both directions are compared entry by entry with the model (multi-fragment, [nop]-padded, truncated indices, many rings).",
+   technique="Coq proof (simulation: erasing attribution commutes with every decoder step) + exact correspondence of attribution lists with the model + independent-tokenisation oracle",
    design_ref="5/C17")
 CLAIMED['C19'] = dict(
    text="Kernel-checked theorem about the cache protocol (props/C19.v): for every schedule of atomic cache operations (lru_cache call, dict get, dict set) of any number of concurrent calls, with arbitrary evictions, a coherent cache stays coherent and every call evaluates to its serial result; the shared mutable state found in the current source by the translator equals the modelled list (a new shared cache or scratch object breaks this equality). Assumed, not modelled: atomicity of those operations under the GIL. Thread stress (8 threads, 1 us switch interval, cold caches) vs serial run vs model as supporting evidence.",
